@@ -7,14 +7,15 @@ CLAIMED = True
 TECHNIQUE = "Lean 4 proof by induction on the number of controls (two-sided invariant) in amplitude-function semantics; gate-list correspondence with ucr.py; Operator oracle"
 LEVEL_TEXT = ("Full proof for the model: for every k>=0, every angle list, RY with CX or CZ and RZ with CX, the recursive "
               "circuit denotes the ideal multiplexer on every state (theorems C13_ucr, C13_nolast over any commutative ring with "
-              "rotation laws; instance R->C proved from Mathlib). The model is tied to ucr.py by diffing flattened gate lists for "
+              "rotation laws; instance R->C proved from Mathlib); corollaries C13_compose (two such circuits = multiplexer of the "
+              "summed angles), C13_inverse (negated angles undo the circuit in both orders, any entanglers), C13_zero. The model is tied to ucr.py by diffing flattened gate lists for "
               "all flag combinations and structured angle families up to k=5 (quick) / 7 (thorough); the property itself is "
               "re-evaluated on the real code with qiskit's Operator as failing-input search.")
 LEVEL_NOTE = ("Trusted: Lean kernel (axioms propext, Classical.choice, Quot.sound), the hand model's agreement with ucr.py beyond the "
               "explored sizes (same recursion for all k), qiskit gate matrices (checked numerically each run), exact arithmetic vs "
               "float (leaf threshold 1e-8 modelled as angle = 0).")
 LEAN_TARGETS = ["QclibModel.Props.C13"]
-THEOREMS = ["Qclib.C13_ucr", "Qclib.C13_nolast"]
+THEOREMS = ["Qclib.C13_ucr", "Qclib.C13_nolast", "Qclib.C13_compose", "Qclib.C13_inverse", "Qclib.C13_zero"]
 TRUSTED = [
     "qiskit RYGate/RZGate/CXGate/CZGate matrices equal matRY/matRZ/X/Z of Sem/Denote.lean (validated numerically each run)",
     "float: the leaf test abs(angle) > 1e-8 is modelled as 'angle = 0' in the theorem and as the same threshold in the driver",
